@@ -117,6 +117,15 @@ def model_to_case(model):
             return Fraction(0)
         k = int(math.ceil(-x / 700.0))
         return Fraction(float(math.exp(x / k))) ** k
+    spread = max([float(np.abs(t[np.isfinite(t)]).max()) if np.isfinite(t).any() else 0.0 for t in tabs.values()] or [0.0])
+    if spread > 600.0 and feas.any() and np.isfinite(logj[feas]).any():
+        # parameters of very different magnitudes: a per-clique shift cannot represent cells that are jointly likely but individually far below
+        # their clique's maximum (every factor would underflow although the product is O(1)).  The distribution implied by the stored
+        # parameters is the normalised exp of their SUM: hand the exact model that table as one factor over the whole domain.
+        top = float(logj[feas][np.isfinite(logj[feas])].max())
+        whole = tuple(attrs)
+        vals = [Fraction(0) if (not math.isfinite(t) and t < 0) else exact_exp(min(t - top, 0.0)) for t in np.asarray(logj, dtype=float).reshape(-1)]
+        return dict(attrs=attrs, sizes=sizes, mcl=[whole], pots={whole: (list(attrs), vals)}, nbrs={whole: []}, ids=pgmgen.ids_of(attrs), total=float(model.total))
     pots = {}
     for cl in mcl:
         f = model.potentials[cl]
